@@ -3,8 +3,10 @@ package props
 import (
 	"context"
 	"fmt"
+	"github.com/fullstorydev/grpchan/httpgrpc"
 	"io"
 	"math/rand"
+	"net"
 	"net/http"
 	"os"
 	"runtime"
@@ -330,6 +332,53 @@ func runC05(e *core.Env, n int) {
 			}
 		}
 		run.Cancel()
+	})
+
+	// calls that fail at the transport (nothing listens at the address): every operation returns, nothing is left
+	// behind although the caller's context lives on
+	e.Cases("transport-failure", e.N(4, 40), func(i int, r *rand.Rand) {
+		l, err := net.Listen("tcp", "127.0.0.1:0")
+		if err != nil {
+			e.Inconclusive("C05 transport-failure: %v", err)
+			return
+		}
+		addr := l.Addr().String()
+		l.Close()
+		tr := newHTTPTransport()
+		ch := &httpgrpc.Channel{Transport: tr, BaseURL: mustURL("http://" + addr + "/")}
+		var keep []grpc.ClientStream
+		for k := 0; k < 5; k++ {
+			kind := pick(r, ClientStream, ServerStream, Bidi)
+			done := make(chan string, 1)
+			go func() {
+				done <- guard(func() {
+					st, err := ch.NewStream(context.Background(), kind.StreamDesc(), kind.Method())
+					if err != nil {
+						return
+					}
+					keep = append(keep, st)
+					st.SendMsg(&tpb.Message{Payload: []byte("x")})
+					st.Header()
+					st.CloseSend()
+					st.RecvMsg(new(tpb.Message))
+					st.RecvMsg(new(tpb.Message))
+					st.Trailer()
+				})
+			}()
+			select {
+			case pan := <-done:
+				if pan != "" {
+					e.Violate("http/"+kind.String()+"/panic/transport-failure", trunc(pan, 500), nil)
+				}
+			case <-time.After(30 * time.Second):
+				e.Violate("http/"+kind.String()+"/deadlock", "operations on a stream whose connection could not be established did not return: "+parkedSummary(allStacks()), nil)
+				return
+			}
+			e.Eval("transport-failure|"+kind.String(), true)
+		}
+		checkLeaks(e, "after streams whose connection could not be established were used up (contexts still alive, streams still referenced)")
+		runtime.KeepAlive(keep)
+		tr.CloseIdleConnections()
 	})
 
 	// the handler returns at once; the client keeps sending until io.EOF and never closes its send side,
